@@ -8,7 +8,7 @@ for f in sys.argv[1:]:
     for l in open(f, errors='replace'):
         if l.startswith('# ') and 'machinery' in l:
             mach = l[2:].strip()
-        m = re.match(r'^(C\d+-[45][a-d]) (C\d+) exit=(\d+) \((\S+)\) ?(.*)$', l.strip())
+        m = re.match(r'^(C\d+-[456][a-d]) (C\d+) exit=(\d+) \((\S+)\) ?(.*)$', l.strip())
         if m:
             res[m.group(1)] = dict(prop=m.group(2), exit=int(m.group(3)), how=m.group(4), key=m.group(5).strip(), run=mach, file=os.path.basename(f))
 notes_extra = json.load(open('/verif/seeded/r45_notes.json')) if os.path.exists('/verif/seeded/r45_notes.json') else {}
@@ -19,9 +19,9 @@ for sid, r in sorted(res.items()):
     notes = open(d + '/notes.md').read() if os.path.exists(d + '/notes.md') else ''
     ver = open(d + '/verify.txt').read().strip() if os.path.exists(d + '/verify.txt') else ''
     rnd = int(sid.split('-')[1][0])
-    origin = ("written by a sub-agent working in its own scratch worktree of /repo, given only the property's entry of properties.jsonl "
+    origin = (("adversarial round: besides what follows the sub-agent got a prose description of the checker and was asked to aim where it does not look. " if rnd == 6 else "") + "written by a sub-agent working in its own scratch worktree of /repo, given only the property's entry of properties.jsonl "
               "(statement, quantifier, anchors) and asked for a change that compiles, keeps the suite green and needs something specific to manifest; it saw nothing from /verif"
-              if rnd == 5 else
+              if rnd >= 5 else
               "written by a sub-agent working in its own scratch worktree that saw nothing from /verif (round 4, taken in during an earlier session)")
     meta = {
         "id": sid, "breaks_property": r['prop'], "round": rnd, "origin": origin,
